@@ -454,9 +454,9 @@ class Interp(Engine):
         if isinstance(obj, HSetList):
             obj.sset = SSet(z3.Array(self.fresh(name + "!set"), z3.IntSort(), z3.BoolSort()))
         elif isinstance(obj, HSymList):
-            obj.n = z3.Int(self.fresh(name + "!n"))
-            self.run.pc.append(obj.n >= 0)
-            obj.arrays = [z3.Array(self.fresh(name + "!a%d" % i), z3.IntSort(), z3.IntSort() if k == "int" else z3.BoolSort()) for i, k in enumerate(obj.kinds)]
+            obj.seqs = [z3.Const(self.fresh(name + "!s%d" % i), z3.SeqSort(z3.IntSort())) for i in range(len(obj.kinds))]
+            for sq in obj.seqs[1:]:
+                self.run.pc.append(z3.Length(sq) == z3.Length(obj.seqs[0]))
         elif isinstance(obj, HIter):
             p = z3.Int(self.fresh(name + "!pos"))
             self.run.pc.append(z3.And(p >= 0, p <= obj.seq.len_e()))
@@ -477,6 +477,10 @@ class Interp(Engine):
             if nm in f.vars:
                 f.vars[nm] = self.havoc_value(nm, f.vars[nm], spec)
         seen = set()
+        for nm in sorted(spec.havoc):
+            if nm not in assigned and nm in f.vars:
+                f.vars[nm] = self.havoc_value(nm, f.vars[nm], spec)
+                seen.add(id(f.vars[nm]))
         for nm in sorted(used):
             try:
                 obj = f.lookup(nm)
